@@ -6,6 +6,12 @@ HERE = os.path.dirname(os.path.dirname(os.path.abspath(__file__)))
 
 # property id -> (simulator, design section, technique, level text, level note)
 BUILT = {
+    "C06": (
+        "D2", "5/C06",
+        "deterministic simulation: simulated Binance (seeded book process, REST snapshot JSON, depth-event JSON frames for spot and USD-futures) behind an in-memory websocket with delivery faults (drop/dup/swap/replay/early-late start/EOF/junk frames), through the real parser, transformers+sequencers, reconnect pipeline and OrderBookL2Manager; local book compared with the exchange book as of its reported sequence after every applied event",
+        "Seeded search over exchange book evolutions x snapshot points x delivery perturbations for both rule sets across 1-3 instruments on one connection, with reconnects taking fresh snapshots. Checks the admitted updates form an unbroken chain under the venue rule (B1), a break ends the connection with exactly one reconnecting notice and a snapshot next (B2), every book equals the exchange's book at the sequence it reports at every instant the manager has applied an event (B3), gap-free deliveries with an old prefix never error (B4), nothing is skipped silently and junk frames are harmless (B5).",
+        "Trusted: the simulated exchange (change log + JSON rendering), the reference old/chains/break classifier written from the venue's published rule, and the probe stream between pipeline and manager. The body of MarketStream::init (TCP/TLS connect, subscribe handshake, REST fetch, events buffered during subscription validation) needs real sockets and is not run; the harness assembles transformer + snapshot buffer + ExchangeStream::new in the same order.",
+    ),
     "C12": (
         "D1", "5/C12",
         "deterministic simulation: real reconnect combinators (init_reconnecting_stream, backoff, termination-on-error, reconnection events, error handler, forward_to) and merge driven by a seeded connection script on a paused tokio runtime; output and init-call instants compared with a script interpreter",
